@@ -18,7 +18,7 @@ PLAN = {
         ("x3x1", 2, "line", 1), ("x22", 2, "line", 1), ("x3", 16, "line", 1),
         ("c3p", 2, "line", 1), ("x3p", 2, "line", 1),
         ("c8", 1, "line", 0), ("c8", 2, "line", 0), ("x8", 2, "line", 0),
-        ("c3", 2, "instruction", 1),
+        ("c3", 2, "instruction", 1), ("x3", 2, "instruction", 1),
         ("c3x1", 1, "line", 1),
     ],
     "thorough": [
